@@ -117,6 +117,58 @@ def random_history(rng, k, length, nonnode=True):
     return ops
 
 
+def wide_histories(rng, tier, faults=True, pre_only=False):
+    """scale: a node with W children (W straddling the usual cut-offs), then one call on it - deletion, replacement,
+    extension, reversal, a single child moved or detached - optionally with a hook raising ONCE at an early, a middle
+    or a late invocation, or at the first invocation of one kind for one particular child (the position is read off
+    the mirror's log of the unfaulted call). Yields (n0, ops)."""
+    import core
+    widths = [33, rng.choice([17, 40, 65])] if tier == "quick" else [17, 33, 40, 65, 130]
+    bases = []
+    for w in widths:
+        n0 = w + 4
+        kids = list(range(1, w + 1))
+        build = [{"op": "sc", "n": 0, "xs": kids, "as": "list"}, {"op": "sp", "n": w + 2, "v": w + 1}]
+        finals = [{"op": "dc", "n": 0},
+                  {"op": "sc", "n": 0, "xs": [w + 1], "as": "list"},
+                  {"op": "sc", "n": 0, "xs": kids + [w + 1], "as": "tuple"},
+                  {"op": "sc", "n": 0, "xs": list(reversed(kids)), "as": "list"},
+                  {"op": "sc", "n": 0, "xs": kids[: w // 2] + [w + 3], "as": "list"},
+                  {"op": "sc", "n": w + 1, "xs": kids[5:], "as": "list"},
+                  {"op": "sp", "n": kids[-1], "v": None},
+                  {"op": "sp", "n": kids[w // 2], "v": w + 1},
+                  {"op": "sp", "n": kids[0], "v": kids[-1]},
+                  {"op": "sc", "n": w + 1, "xs": [kids[3], w + 3] + kids[10:] + ["x"], "as": "list"},
+                  {"op": "sc", "n": 0, "xs": [w + 2] + kids + [kids[4]], "as": "list"},
+                  {"op": "sc", "n": w + 1, "xs": kids[2:] + [w + 1], "as": "list"}]
+        for f in finals:
+            bases.append((n0, build, f, kids))
+    logs = [None] * len(bases)
+    if faults:
+        res = core.run_driver([dict(mk("nm", False, n0, build + [f], cls="mixin"), loglevel=1) for n0, build, f, _ in bases])
+        logs = [r["mirror"][-1]["log"] for r in res]
+    for (n0, build, f, kids), log in zip(bases, logs):
+        yield n0, build + [dict(f)]
+        if not log:
+            continue
+        w = len(kids)
+        idx = [i for i, e in enumerate(log) if (not pre_only or e[0].startswith("pre_"))]
+        if not idx:
+            continue
+        picks = set()
+        for _ in range(3 if tier == "quick" else 6):
+            if rng.random() < 0.5:
+                picks.add(rng.choice([idx[0], idx[min(1, len(idx) - 1)], idx[min(2, len(idx) - 1)], idx[len(idx) // 2],
+                                      idx[-1], idx[max(len(idx) - 2, 0)], rng.choice(idx)]))
+            else:
+                node = rng.choice([kids[0], kids[1], kids[w // 2], kids[-1], w + 1, 0])
+                cand = [i for i in idx if log[i][1] == node]
+                if cand:
+                    picks.add(rng.choice([cand[0], cand[-1], rng.choice(cand)]))
+        for i in sorted(picks):
+            yield n0, build + [dict(f, faults={"at": [i]})]
+
+
 LIGHT_CLASSES = ["light", "lighteq", "lightfalsy"]
 
 
